@@ -118,6 +118,12 @@ _unused: HashMismatch
 //@ fn RepositoryState::touch
 //@ spec
     ensures
+        // C29: a copy confirmed by the server (304) counts as updated NOW: its best-before is a fresh draw
+        // for the fallback window counted from now, whatever the old values were -- the same as after a
+        // real update; so a later failed update finds it Current, not Stale, for the whole window
+        is_now(final(self).updated_ts),
+        // C29: (the best-before is redrawn unconditionally)
+        fresh_draw(fallback, final(self).best_before_ts),
         final(self).session == old(self).session, final(self).serial == old(self).serial,
         final(self).rpki_notify == old(self).rpki_notify, final(self).etag == old(self).etag,
         final(self).last_modified_ts == old(self).last_modified_ts,
@@ -332,6 +338,10 @@ _unused: HashMismatch
     ensures
         // the copy is kept as it is; only its state record is refreshed (same session and serial)
         (current matches Some(c) ==> (res is Ok ==> kept_current(c.0, c.1))),
+        // C29: the record written on a 304 is updated now and carries a freshly drawn best-before
+        (current matches Some(c) ==> (res is Ok ==> exists|st: RepositoryState|
+            #[trigger] archive_committed(c.0.path_spec(), c.0.objects(), st)
+            && is_now(st.updated_ts) && fresh_draw(old(self).collector.config.fallback_time, st.best_before_ts))),
         res is Err ==> exists|p: PathBuf| #[trigger] local_archive_fault(p),
         final(self).collector == old(self).collector, final(self).path == old(self).path,
         final(self).rpki_notify == old(self).rpki_notify,
